@@ -88,6 +88,16 @@ non-trivial = at least two controls were sent and at least one child was spawned
 // shrinking (shared)
 
 pub fn shrink_e1(s: &E1Scn) -> Vec<E1Scn> {
+    let out = shrink_e1_raw(s);
+    match s.family.as_str() {
+        // family-specific oracles rely on the shape of the scenario: keep it
+        "hi-over-normal" => out.into_iter().filter(|c| c.senders == s.senders).collect(),
+        "settled" => out.into_iter().filter(|c| c.senders.iter().all(|st| st.iter().all(|x| x.gap >= 2000))).collect(),
+        _ => out,
+    }
+}
+
+fn shrink_e1_raw(s: &E1Scn) -> Vec<E1Scn> {
     let mut out = Vec::new();
     // drop a whole sender
     if s.senders.len() > 1 {
@@ -302,7 +312,944 @@ impl Check for C04 {
     }
 }
 
-#[allow(dead_code)]
-fn _unused(_: &Step) {
-    let _ = expected_os_signal(1);
+
+// ------------------------------------------------------------------------------------------
+// helpers shared by C06 / C07 / C10
+
+/// ops that carry a signal number, and how often each number is used in the scenario
+fn sig_uses(scn: &E1Scn) -> std::collections::BTreeMap<i32, Vec<u32>> {
+    let mut m: std::collections::BTreeMap<i32, Vec<u32>> = Default::default();
+    for (si, steps) in scn.senders.iter().enumerate() {
+        for (i, st) in steps.iter().enumerate() {
+            let sig = match &st.op {
+                Op::StopSig { sig, .. } | Op::RestartSig { sig, .. } | Op::TryRestartSig { sig, .. } | Op::Signal { sig } => Some(*sig),
+                _ => None,
+            };
+            if let Some(sig) = sig {
+                m.entry(expected_os_signal(sig)).or_default().push(E1Scn::op_id(si, i));
+            }
+        }
+    }
+    m
+}
+
+fn all_ops(scn: &E1Scn) -> Vec<(u32, usize, usize, &Step)> {
+    let mut v = Vec::new();
+    for (si, steps) in scn.senders.iter().enumerate() {
+        for (i, st) in steps.iter().enumerate() {
+            v.push((E1Scn::op_id(si, i), si, i, st));
+        }
+    }
+    v
+}
+
+/// largest virtual duration an installed async spawn hook or async error handler can add to a control
+fn hook_slack(scn: &E1Scn) -> u64 {
+    let mut h = 0;
+    let mut e = 0;
+    for (_, _, _, st) in all_ops(scn) {
+        match st.op {
+            Op::SetHook { async_ms: Some(ms) } => h = h.max(ms),
+            Op::SetErr { async_ms: Some(ms) } => e = e.max(ms),
+            _ => {}
+        }
+    }
+    h + e
+}
+
+/// upper bound on the virtual time the job task can spend inside closures, hooks and handlers
+fn busy_bound(scn: &E1Scn) -> u64 {
+    let ops = all_ops(scn);
+    let run_async: u64 = ops.iter().map(|o| if let Op::RunAsync { ms } = o.3.op { ms } else { 0 }).sum();
+    let capable = ops.iter().filter(|o| o.3.op.spawn_capable()).count() as u64;
+    run_async + hook_slack(scn) * (2 * capable + 2)
+}
+
+/// where the signal of graceful op `id` landed: (t, seq, child, delivered)
+fn graceful_signal(scn: &E1Scn, d: &Digest, id: u32) -> Option<Vec<(u64, u32, usize, bool)>> {
+    let (sig, _) = scn.op(id).op.graceful()?;
+    let os = expected_os_signal(sig);
+    let uses = sig_uses(scn);
+    if uses.get(&os).map(|v| v.len()).unwrap_or(0) != 1 {
+        return None; // ambiguous attribution: not judged
+    }
+    let mut v = Vec::new();
+    for (ci, c) in d.children.iter().enumerate() {
+        for s in &c.signals {
+            if s.2 == os {
+                v.push((s.0, s.1, ci, s.3));
+            }
+        }
+    }
+    Some(v)
+}
+
+fn delete_now_before(scn: &E1Scn, d: &Digest, seq: u32) -> bool {
+    all_ops(scn).iter().any(|(id, _, _, st)| st.op == Op::DeleteNow && d.send.get(id).map(|s| s.1 < seq).unwrap_or(false))
+}
+
+/// Normal-priority work must be held back between the graceful signal and the child's end.
+fn oracle_normal_held(scn: &E1Scn, d: &Digest, stats: &mut Stats) -> Vec<Violation> {
+    let mut vs = Vec::new();
+    for (id, _, _, st) in all_ops(scn) {
+        if st.op.graceful().is_none() {
+            continue;
+        }
+        let Some(sigs) = graceful_signal(scn, d, id) else { continue };
+        if sigs.len() != 1 || !sigs[0].3 {
+            continue;
+        }
+        let (s, sseq, ci, _) = sigs[0];
+        let c = &d.children[ci];
+        if c.faults > 0 {
+            continue; // an injected kill/wait/signal error legitimately ends the graceful control early
+        }
+        stats.hit("probe:grace-window-judged");
+        let end_seq = c.reaped.map(|r| r.1).unwrap_or(u32::MAX);
+        for (mid, starts) in &d.marker_start {
+            for (t, seq, _, _) in starts {
+                if *seq > sseq && *seq < end_seq {
+                    vs.push(Violation::new(
+                        "normal-control-ran-during-grace",
+                        &format!("graceful={}", st.op.name()),
+                        format!(
+                            "marker op {mid} started at t={t} (#{seq}) after {} signalled child {ci} at t={s} (#{sseq}) and before that child ended (reaped #{end_seq})",
+                            st.op.name()
+                        ),
+                    ));
+                }
+            }
+        }
+        // plain `signal` controls are Normal priority too
+        for other in &c.signals {
+            if other.1 > sseq && other.1 < end_seq {
+                vs.push(Violation::new(
+                    "normal-control-ran-during-grace",
+                    &format!("graceful={} other=signal", st.op.name()),
+                    format!("signal {} reached child {ci} at t={} (#{}) inside the grace period opened at t={s} (#{sseq})", other.2, other.0, other.1),
+                ));
+            }
+        }
+    }
+    vs
+}
+
+// ------------------------------------------------------------------------------------------
+// C06: graceful stop
+
+pub fn gen_settled(rng: &mut Rng, graceful_heavy: bool) -> E1Scn {
+    let mut sigs = e1::SigAlloc::new();
+    let n = rng.range(1, 7);
+    let mut steps = Vec::new();
+    for _ in 0..n {
+        let grace = *rng.pick(&e1::DURS[..7]);
+        let k = if graceful_heavy { rng.below(14) } else { rng.below(18) };
+        let op = match k {
+            0 | 1 => Op::Start,
+            2 | 3 => Op::StopSig { sig: sigs.fresh(), grace },
+            4 | 5 => Op::RestartSig { sig: sigs.fresh(), grace },
+            6 | 7 => Op::TryRestartSig { sig: sigs.fresh(), grace },
+            8 => Op::Stop,
+            9 => Op::Restart,
+            10 => Op::TryRestart,
+            11 => Op::Run,
+            12 => Op::ToWait,
+            13 => Op::Signal { sig: sigs.fresh() },
+            14 => Op::RunAsync { ms: *rng.pick(&e1::DURS[..6]) },
+            15 => Op::SetHook { async_ms: if rng.chance(1, 2) { None } else { Some(*rng.pick(&e1::DURS[..5])) } },
+            16 => Op::UnsetHook,
+            _ => Op::Delete,
+        };
+        steps.push(Step { gap: 2000 + rng.below(3) * 1000, op, waiters: rng.below(3) as u8, inline: false });
+    }
+    let n_children = rng.range(1, 4);
+    let children = (0..n_children).map(|_| e1::child_class(rng.below(6), rng)).collect();
+    E1Scn { family: "settled".into(), grouped: rng.chance(1, 4), session: false, children, spawn_fail: vec![], senders: vec![steps], drop_handles: false }
+}
+
+/// graceful op immediately followed (same instant or a few ms later) by controls of every priority
+pub fn gen_graceful_burst(rng: &mut Rng, faults: bool) -> E1Scn {
+    let mut sigs = e1::SigAlloc::new();
+    let mut steps = vec![Step { gap: 0, op: Op::Start, waiters: 1, inline: rng.chance(1, 2) }];
+    let grace = *rng.pick(&e1::DURS[..7]);
+    let sig = if rng.chance(1, 10) { 77 } else { sigs.fresh() };
+    let g = match rng.below(3) {
+        0 => Op::StopSig { sig, grace },
+        1 => Op::RestartSig { sig, grace },
+        _ => Op::TryRestartSig { sig, grace },
+    };
+    if sig == 77 {
+        // 77 is not a valid signal number: must be delivered as SIGTERM (15); keep 15 out of the pool
+        let _ = sigs.fresh();
+    }
+    steps.push(Step { gap: *rng.pick(&[0u64, 0, 1, 5, 50]), op: g, waiters: rng.range(0, 3) as u8, inline: false });
+    let n_after = rng.range(0, 5);
+    let mut second: Vec<Step> = Vec::new();
+    for _ in 0..n_after {
+        let op = match rng.below(9) {
+            0 | 1 | 2 => Op::Run,
+            3 => Op::RunAsync { ms: *rng.pick(&e1::DURS[..5]) },
+            4 => Op::ToWait,
+            5 => Op::DeleteNow,
+            6 => Op::Signal { sig: sigs.fresh() },
+            7 => Op::Start,
+            _ => Op::Stop,
+        };
+        let st = Step { gap: *rng.pick(&[0u64, 0, 1, 2, 5, 10, 50, 100]), op, waiters: rng.below(2) as u8, inline: false };
+        if rng.chance(1, 3) {
+            second.push(st);
+        } else {
+            steps.push(st);
+        }
+    }
+    let mut children: Vec<ChildSpec> = (0..rng.range(1, 3)).map(|_| e1::child_class(rng.below(6), rng)).collect();
+    // bias the first child so that its reaction collides with the grace period
+    if rng.chance(1, 2) {
+        children[0] = match rng.below(4) {
+            0 => ChildSpec { on_signal: SigReact::Exit(grace), ..Default::default() },
+            1 => ChildSpec { on_signal: SigReact::Exit(grace.saturating_sub(1)), ..Default::default() },
+            2 => ChildSpec { on_signal: SigReact::Exit(grace + 1), ..Default::default() },
+            _ => ChildSpec { on_signal: SigReact::Ignore, self_exit: Some(grace / 2 + 1), ..Default::default() },
+        };
+    }
+    let mut spawn_fail = vec![];
+    if faults {
+        if rng.chance(1, 3) {
+            spawn_fail.push(1);
+        }
+        if rng.chance(1, 6) {
+            children[0].fail_signal = true;
+        }
+        if rng.chance(1, 8) {
+            children[0].fail_kill = true;
+        }
+    }
+    let mut senders = vec![steps];
+    if !second.is_empty() {
+        senders.push(second);
+    }
+    E1Scn { family: "graceful-burst".into(), grouped: false, session: false, children, spawn_fail, senders, drop_handles: false }
+}
+
+pub fn oracle_c06(scn: &E1Scn, d: &Digest, stats: &mut Stats) -> Vec<Violation> {
+    let mut vs = Vec::new();
+    let uses = sig_uses(scn);
+    // (1a) only requested signals, mapped to their OS numbers, ever reach a child
+    for (ci, c) in d.children.iter().enumerate() {
+        for s in &c.signals {
+            if !uses.contains_key(&s.2) {
+                vs.push(Violation::new("unexpected-signal", "", format!("child {ci} received signal {} at t={} which no control asked for", s.2, s.0)));
+            }
+        }
+    }
+    for (id, _, _, st) in all_ops(scn) {
+        let Some((sig, grace)) = st.op.graceful() else { continue };
+        let Some(sigs) = graceful_signal(scn, d, id) else { continue };
+        if sigs.len() > 1 {
+            vs.push(Violation::new("signal-repeated", st.op.name(), format!("op {id} ({}) delivered its signal {} times", st.op.name(), sigs.len())));
+            continue;
+        }
+        if !(1..=31).contains(&sig) && !sigs.is_empty() {
+            stats.hit("probe:unmappable-signal-sent-as-sigterm");
+        }
+        let Some(&(s, sseq, ci, delivered)) = sigs.first() else {
+            stats.hit("probe:graceful-on-idle-job");
+            continue;
+        };
+        let c = &d.children[ci];
+        if !delivered {
+            continue;
+        }
+        stats.hit("probe:graceful-on-running-job");
+        // (1b) settled: the signal goes out at the instant the control was sent
+        if scn.family == "settled" {
+            let sent = d.send[&id].0;
+            if s != sent {
+                vs.push(Violation::new("signal-late", st.op.name(), format!("op {id} ({}) sent at t={sent} on a quiescent job but the signal went out at t={s}", st.op.name())));
+            }
+        }
+        let deadline = s + grace;
+        let ended_by_then = d.task_end.map(|te| te.0 <= deadline).unwrap_or(false);
+        // (2) no force-kill inside the grace period
+        for k in &c.kills {
+            if k.0 >= s && k.0 < deadline && k.1 > sseq && !delete_now_before(scn, d, k.1) {
+                vs.push(Violation::new(
+                    "killed-before-grace-elapsed",
+                    st.op.name(),
+                    format!("op {id} ({}) signalled child {ci} at t={s} with grace {grace} ms but it was force-killed at t={} (#{})", st.op.name(), k.0, k.1),
+                ));
+            }
+        }
+        // (3) still alive at expiry => killed and reaped exactly then
+        let faulty = c.faults > 0;
+        let dropped_early = c.dropped.map(|dr| !dr.2 && dr.0 <= deadline).unwrap_or(false);
+        match c.exit {
+            Some((e, _)) if e < deadline => stats.hit("probe:child-exit-inside-grace"),
+            Some((e, _)) if e == deadline => stats.hit("probe:exit-at-expiry-tie"),
+            _ => {}
+        }
+        if !faulty && !ended_by_then && !dropped_early && !delete_now_before(scn, d, u32::MAX) {
+            let late = match c.exit {
+                None => true,
+                Some((e, _)) => e > deadline,
+            };
+            if late {
+                vs.push(Violation::new(
+                    "no-kill-at-grace-expiry",
+                    st.op.name(),
+                    format!("op {id} ({}) signalled child {ci} at t={s}, grace {grace} ms: child still alive after t={deadline} (exit: {:?}, kills: {:?})", st.op.name(), c.exit, c.kills),
+                ));
+            } else if let Some((e, status)) = c.exit {
+                if e == deadline && status == 1009 {
+                    stats.hit("probe:kill-at-expiry");
+                    match c.reaped {
+                        Some((rt, _, _)) if rt == deadline => {}
+                        other => vs.push(Violation::new(
+                            "not-reaped-at-grace-expiry",
+                            st.op.name(),
+                            format!("child {ci} force-killed at t={deadline} but reaped: {other:?}"),
+                        )),
+                    }
+                }
+            }
+        }
+    }
+    // (4) normal-priority work held back during the grace period
+    vs.extend(oracle_normal_held(scn, d, stats));
+    // (5) spawn budget: a spawn-capable control causes at most one spawn attempt
+    let capable = all_ops(scn).iter().filter(|(_, _, _, st)| st.op.spawn_capable()).count();
+    let attempts = d.children.len() + d.spawn_fails.len();
+    if attempts > capable {
+        vs.push(Violation::new(
+            "unrequested-spawn",
+            "",
+            format!("{attempts} spawn attempts but only {capable} controls that may spawn (start/restart variants) were ever sent"),
+        ));
+    }
+    // (5'/6) settled, fault-free: exact number of spawn attempts per control
+    if scn.family == "settled" && !scn.has_faults() {
+        let ops = all_ops(scn);
+        for (k, (id, _, _, st)) in ops.iter().enumerate() {
+            let Some(&(t, _)) = d.send.get(id) else { continue };
+            let t_next = ops.get(k + 1).and_then(|(n, _, _, _)| d.send.get(n)).map(|s| s.0).unwrap_or(u64::MAX);
+            if d.task_end.map(|te| te.0 <= t).unwrap_or(false) {
+                continue;
+            }
+            if d.children.iter().any(|c| c.spawn_t == t || c.exit.map(|e| e.0 == t).unwrap_or(false)) {
+                continue; // tie with a child transition: state at send time is ambiguous
+            }
+            let running = d.children.iter().any(|c| c.spawn_t < t && c.exit.map(|e| e.0 > t).unwrap_or(true));
+            let expect = match st.op {
+                Op::Start => (!running) as usize,
+                Op::Restart | Op::RestartSig { .. } => 1,
+                Op::TryRestart | Op::TryRestartSig { .. } => running as usize,
+                _ => 0,
+            };
+            let got = d.children.iter().filter(|c| c.spawn_t >= t && c.spawn_t < t_next).count();
+            if got != expect {
+                vs.push(Violation::new(
+                    "wrong-spawn-count",
+                    &format!("control={} running={} expected={} got={}", st.op.name(), running, expect, got.min(3)),
+                    format!("op {id} ({}) sent at t={t} with the job {}: expected {expect} spawn(s) before the next control at t={t_next}, saw {got}", st.op.name(), if running { "running" } else { "not running" }),
+                ));
+            }
+            if matches!(st.op, Op::TryRestartSig { .. } | Op::TryRestart) && !running {
+                stats.hit("probe:try-restart-on-idle");
+            }
+        }
+    }
+    vs
+}
+
+pub struct C06;
+
+impl Check for C06 {
+    type Scn = E1Scn;
+    fn property(&self) -> &'static str {
+        "C06"
+    }
+    fn engine(&self) -> &'static str {
+        "E1-jobsim"
+    }
+    fn budget(&self, tier: Tier) -> u64 {
+        match tier {
+            Tier::Quick => 200_000,
+            Tier::Thorough => 20_000_000,
+        }
+    }
+    fn generate(&self, rng: &mut Rng, idx: u64, _tier: Tier) -> Option<E1Scn> {
+        Some(match idx % 4 {
+            0 => gen_settled(rng, true),
+            1 => gen_graceful_burst(rng, false),
+            2 => gen_graceful_burst(rng, true),
+            _ => e1::gen_random(rng, &GenCfg { faults: idx % 8 == 7, max_ops: 12, max_senders: 3, allow_drop: false }),
+        })
+    }
+    fn execute(&self, scn: &E1Scn, policy: Policy, sched_seed: u64) -> RunOut {
+        e1::execute(scn, policy, sched_seed)
+    }
+    fn check(&self, scn: &E1Scn, out: &RunOut, stats: &mut Stats) -> Vec<Violation> {
+        let d = digest(out);
+        e1_stats(scn, &d, out, stats);
+        let mut vs = oracle_c06(scn, &d, stats);
+        vs.extend(oracle_c04(out));
+        vs
+    }
+    fn shrink(&self, scn: &E1Scn) -> Vec<E1Scn> {
+        shrink_e1(scn)
+    }
+    fn nontrivial(&self, scn: &E1Scn, out: &RunOut) -> bool {
+        e1_nontrivial(scn, out) && out.hist.iter().any(|r| matches!(r.ev, Ev::Signal { delivered: true, .. }))
+    }
+    fn rule(&self) -> String {
+        format!("{E1_RULE}; for C06 additionally: a signal was delivered to a live child")
+    }
+    fn required_probes(&self, _tier: Tier) -> Vec<&'static str> {
+        vec![
+            "probe:graceful-on-running-job",
+            "probe:graceful-on-idle-job",
+            "probe:child-exit-inside-grace",
+            "probe:exit-at-expiry-tie",
+            "probe:kill-at-expiry",
+            "probe:try-restart-on-idle",
+            "probe:unmappable-signal-sent-as-sigterm",
+        ]
+    }
+    fn components(&self) -> Value {
+        e1_components()
+    }
+    fn assumptions(&self) -> Vec<String> {
+        e1_assumptions()
+    }
+}
+
+// ------------------------------------------------------------------------------------------
+// C07: every control completes, every ticket resolves
+
+fn hang_context(scn: &E1Scn, d: &Digest, id: u32) -> String {
+    let st = scn.op(id);
+    let mut flags: Vec<&str> = Vec::new();
+    if let Some(sigs) = graceful_signal(scn, d, id) {
+        if let Some(&(s, _, ci, delivered)) = sigs.first() {
+            let (_, grace) = st.op.graceful().unwrap();
+            if delivered {
+                match d.children[ci].exit {
+                    Some((e, _)) if e < s + grace => flags.push("child-exit-inside-grace"),
+                    Some((e, _)) if e == s + grace => flags.push("child-exit-at-expiry"),
+                    _ => flags.push("grace-expired"),
+                }
+            }
+        }
+    }
+    if !d.spawn_fails.is_empty() {
+        flags.push("spawn-failed");
+    }
+    if d.children.iter().any(|c| c.faults > 0) {
+        flags.push("child-op-error");
+    }
+    if scn.drop_handles {
+        flags.push("handles-dropped");
+    }
+    if d.task_end.map(|t| t.2).unwrap_or(false) {
+        flags.push("task-panicked");
+    }
+    if d.children.is_empty() && d.spawn_fails.is_empty() {
+        flags.push("never-started");
+    }
+    if d.resolved.get(&id).map(|v| !v.is_empty()).unwrap_or(false) {
+        flags.push("other-waiter-resolved");
+    }
+    format!("control={} {}", st.op.name(), flags.join(","))
+}
+
+pub fn oracle_c07(scn: &E1Scn, d: &Digest, out: &RunOut, stats: &mut Stats) -> Vec<Violation> {
+    let mut vs = Vec::new();
+    let slack = hook_slack(scn);
+    let _ = out;
+    // (a) no waiter may be left to the 1 h watchdog
+    let mut seen_hung: Vec<u32> = Vec::new();
+    for (id, w, h) in &d.hung {
+        if seen_hung.contains(id) {
+            continue;
+        }
+        seen_hung.push(*id);
+        let st = scn.op(*id);
+        let sent = d.send.get(id).map(|s| s.0).unwrap_or(0);
+        // the process that was running when to_wait was sent is still running at the watchdog instant
+        let still_running = d.children.iter().any(|c| c.spawn_t <= sent + busy_bound(scn) && c.exit.map(|e| e.0 >= *h).unwrap_or(true));
+        if st.op == Op::ToWait && still_running {
+            // legitimately pending: a process is still running when the run ends
+            stats.hit("probe:to-wait-on-immortal-child");
+            continue;
+        }
+        vs.push(Violation::new(
+            "ticket-never-resolved",
+            &hang_context(scn, d, *id),
+            format!("ticket of op {id} ({}) sent at t={} was still unresolved 1 h (virtual) later for waiter {w}; nothing else in the system could make progress", st.op.name(), d.send.get(id).map(|s| s.0).unwrap_or(0)),
+        ));
+    }
+    // (b) all clones / waiters of one ticket resolve at the same instant
+    for (id, rs) in &d.resolved {
+        if rs.len() >= 2 {
+            stats.hit("probe:multi-waiter-ticket");
+            let t0 = rs[0].1;
+            if rs.iter().any(|r| r.1 != t0) {
+                vs.push(Violation::new(
+                    "waiters-resolve-at-different-times",
+                    &format!("control={}", scn.op(*id).op.name()),
+                    format!("op {id}: waiters resolved at {:?}", rs.iter().map(|r| (r.0, r.1)).collect::<Vec<_>>()),
+                ));
+            }
+        }
+    }
+    // (c) markers run at most once
+    for (id, starts) in &d.marker_start {
+        if starts.len() > 1 {
+            vs.push(Violation::new("control-ran-twice", "", format!("marker op {id} ran {} times", starts.len())));
+        }
+    }
+    let task_end = d.task_end;
+    for (id, _, _, st) in all_ops(scn) {
+        let Some(&(sent, _)) = d.send.get(&id) else { continue };
+        let rs = d.resolved.get(&id).cloned().unwrap_or_default();
+        if rs.is_empty() {
+            continue;
+        }
+        let latest = rs.iter().map(|r| r.1).max().unwrap();
+        let earliest = rs.iter().map(|r| r.1).min().unwrap();
+        // (f) job end resolves everything outstanding, promptly
+        if let Some((g, _, _)) = task_end {
+            if sent <= g && latest > g {
+                vs.push(Violation::new(
+                    "ticket-outlives-job",
+                    &format!("control={}", st.op.name()),
+                    format!("job task ended at t={g} but the ticket of op {id} ({}) sent at t={sent} resolved only at t={latest}", st.op.name()),
+                ));
+            }
+            if sent > g && latest != sent {
+                vs.push(Violation::new(
+                    "ticket-on-dead-job-not-immediate",
+                    "",
+                    format!("op {id} sent at t={sent} after the job ended at t={g} resolved at t={latest}"),
+                ));
+            }
+        }
+        // (d) a marker's ticket resolves no later than the marker's completion (and not before it ran)
+        if st.op.is_marker() {
+            let done = match st.op {
+                Op::Run => d.marker_start.get(&id).and_then(|v| v.first()).map(|m| m.0),
+                _ => d.marker_end.get(&id).and_then(|v| v.first()).map(|m| m.0),
+            };
+            match done {
+                Some(t) => {
+                    if latest > t {
+                        vs.push(Violation::new(
+                            "ticket-later-than-completion",
+                            &format!("control={}", st.op.name()),
+                            format!("op {id} ({}) completed at t={t} but its ticket resolved at t={latest}", st.op.name()),
+                        ));
+                    }
+                    if earliest < t && task_end.map(|g| g.0 > earliest).unwrap_or(true) {
+                        vs.push(Violation::new(
+                            "ticket-before-completion",
+                            &format!("control={}", st.op.name()),
+                            format!("op {id} ({}) completed at t={t} but its ticket resolved already at t={earliest} with the job alive", st.op.name()),
+                        ));
+                    }
+                }
+                None => {
+                    // never ran: only fine if the job ended
+                    if task_end.map(|g| g.0 > earliest).unwrap_or(true) {
+                        vs.push(Violation::new(
+                            "ticket-resolved-control-never-ran",
+                            "",
+                            format!("marker op {id} never ran but its ticket resolved at t={earliest} with the job alive"),
+                        ));
+                    }
+                }
+            }
+        }
+        // (e) graceful stop: no later than min(child exit, signal + grace) (+ hook time for the restart forms)
+        if let Some((_, grace)) = st.op.graceful() {
+            if let Some(sigs) = graceful_signal(scn, d, id) {
+                if let [(s, _, ci, true)] = sigs[..] {
+                    let c = &d.children[ci];
+                    if c.faults == 0 && d.spawn_fails.is_empty() {
+                        let bound = c.exit.map(|e| e.0).unwrap_or(u64::MAX).min(s + grace);
+                        let extra = if matches!(st.op, Op::StopSig { .. }) { 0 } else { slack };
+                        if latest > bound.saturating_add(extra) {
+                            vs.push(Violation::new(
+                                "graceful-ticket-late",
+                                &format!("control={}", st.op.name()),
+                                format!(
+                                    "op {id} ({}): signal at t={s}, grace {grace} ms, child exit {:?}: ticket must resolve by t={} but resolved at t={latest}",
+                                    st.op.name(),
+                                    c.exit,
+                                    bound.saturating_add(extra)
+                                ),
+                            ));
+                        }
+                        stats.hit("probe:graceful-ticket-judged");
+                    }
+                }
+            }
+        }
+    }
+    // (g) injected failures reach the error handler: never more calls than faults
+    let faults = d.spawn_fails.len() + d.children.iter().map(|c| c.faults as usize).sum::<usize>();
+    if d.errs.len() > faults {
+        vs.push(Violation::new("error-handler-overcalled", "", format!("{} error-handler calls for {faults} injected failures", d.errs.len())));
+    }
+    let ops = all_ops(scn);
+    let handler_stable = scn.senders.len() == 1
+        && matches!(ops.first().map(|o| &o.3.op), Some(Op::SetErr { .. }))
+        && ops.iter().skip(1).all(|o| !matches!(o.3.op, Op::SetErr { .. } | Op::UnsetErr));
+    if handler_stable && faults > 0 {
+        stats.hit("probe:error-handler-stable-with-faults");
+        if d.errs.len() != faults && d.task_end.is_none() {
+            vs.push(Violation::new(
+                "error-handler-call-count",
+                "",
+                format!("{faults} injected failures but {} error-handler calls (handler installed first and never changed)", d.errs.len()),
+            ));
+        }
+    }
+    vs
+}
+
+pub fn gen_c07(rng: &mut Rng, idx: u64) -> E1Scn {
+    match idx % 6 {
+        0 => gen_graceful_burst(rng, false),
+        1 => gen_graceful_burst(rng, true),
+        2 => {
+            // error handler installed first, then random single-sender sequence with faults
+            let mut s = e1::gen_random(rng, &GenCfg { faults: true, max_ops: 10, max_senders: 1, allow_drop: false });
+            for st in s.senders[0].iter_mut() {
+                if matches!(st.op, Op::SetErr { .. } | Op::UnsetErr) {
+                    st.op = Op::Run;
+                }
+            }
+            s.senders[0].insert(0, Step { gap: 0, op: Op::SetErr { async_ms: if rng.chance(1, 2) { None } else { Some(5) } }, waiters: 0, inline: false });
+            s.family = "errh-first".into();
+            s
+        }
+        3 => gen_settled(rng, false),
+        4 => e1::gen_random(rng, &GenCfg { faults: false, max_ops: 14, max_senders: 3, allow_drop: true }),
+        _ => e1::gen_random(rng, &GenCfg { faults: true, max_ops: 14, max_senders: 3, allow_drop: true }),
+    }
+}
+
+pub struct C07;
+
+impl Check for C07 {
+    type Scn = E1Scn;
+    fn property(&self) -> &'static str {
+        "C07"
+    }
+    fn engine(&self) -> &'static str {
+        "E1-jobsim"
+    }
+    fn budget(&self, tier: Tier) -> u64 {
+        match tier {
+            Tier::Quick => 200_000,
+            Tier::Thorough => 20_000_000,
+        }
+    }
+    fn generate(&self, rng: &mut Rng, idx: u64, _tier: Tier) -> Option<E1Scn> {
+        let mut s = gen_c07(rng, idx);
+        // C07 is about waiters: make sure most tickets are awaited, some by several tasks
+        for steps in s.senders.iter_mut() {
+            for st in steps.iter_mut() {
+                if st.waiters == 0 && !st.inline && rng.chance(2, 3) {
+                    st.waiters = rng.range(1, 3) as u8;
+                }
+            }
+        }
+        Some(s)
+    }
+    fn execute(&self, scn: &E1Scn, policy: Policy, sched_seed: u64) -> RunOut {
+        e1::execute(scn, policy, sched_seed)
+    }
+    fn check(&self, scn: &E1Scn, out: &RunOut, stats: &mut Stats) -> Vec<Violation> {
+        let d = digest(out);
+        e1_stats(scn, &d, out, stats);
+        oracle_c07(scn, &d, out, stats)
+    }
+    fn shrink(&self, scn: &E1Scn) -> Vec<E1Scn> {
+        shrink_e1(scn)
+    }
+    fn nontrivial(&self, scn: &E1Scn, out: &RunOut) -> bool {
+        e1_nontrivial(scn, out) && out.hist.iter().any(|r| matches!(r.ev, Ev::Resolved { .. }))
+    }
+    fn rule(&self) -> String {
+        format!("{E1_RULE}; for C07 additionally: at least one awaited ticket resolved")
+    }
+    fn required_probes(&self, _tier: Tier) -> Vec<&'static str> {
+        vec![
+            "probe:multi-waiter-ticket",
+            "probe:child-exit-inside-grace",
+            "probe:graceful-ticket-judged",
+            "fault:spawn-failure",
+            "fault:signal-error",
+            "fault:kill-error",
+            "fault:last-handle-dropped",
+            "probe:job-task-ended",
+            "probe:error-handler-stable-with-faults",
+        ]
+    }
+    fn components(&self) -> Value {
+        e1_components()
+    }
+    fn assumptions(&self) -> Vec<String> {
+        e1_assumptions()
+    }
+}
+
+// ------------------------------------------------------------------------------------------
+// C10: ordering within and across priorities
+
+pub fn oracle_c10(scn: &E1Scn, d: &Digest, stats: &mut Stats) -> Vec<Violation> {
+    let mut vs = Vec::new();
+    // each marker at most once
+    for (id, starts) in &d.marker_start {
+        if starts.len() > 1 {
+            vs.push(Violation::new("control-ran-twice", "", format!("marker op {id} ran {} times", starts.len())));
+        }
+    }
+    let task_end_t = d.task_end.map(|t| t.0);
+    for (si, steps) in scn.senders.iter().enumerate() {
+        // (1) per-sender FIFO among Normal markers
+        let mut last: Option<(u32, u32)> = None; // (op, start seq)
+        let mut skipped: Option<u32> = None; // an earlier marker of this sender that never ran
+        for (i, st) in steps.iter().enumerate() {
+            let id = E1Scn::op_id(si, i);
+            if !st.op.is_marker() {
+                continue;
+            }
+            match d.marker_start.get(&id).and_then(|v| v.first()) {
+                Some(m) => {
+                    if let Some((pid, pseq)) = last {
+                        stats.hit("probe:fifo-pair-judged");
+                        if m.1 < pseq {
+                            vs.push(Violation::new(
+                                "same-priority-reordered",
+                                "",
+                                format!("sender {si}: op {id} ran (#{}) before the earlier-sent op {pid} (#{pseq})", m.1),
+                            ));
+                        }
+                    }
+                    if let Some(sk) = skipped {
+                        vs.push(Violation::new(
+                            "earlier-control-skipped",
+                            "",
+                            format!("sender {si}: op {id} ran although the earlier-sent normal-priority op {sk} never ran"),
+                        ));
+                    }
+                    last = Some((id, m.1));
+                }
+                None => {
+                    if d.send.contains_key(&id) {
+                        skipped = Some(id);
+                    }
+                }
+            }
+        }
+        // (2) awaiting a later normal-priority ticket implies every earlier marker of that sender has run
+        for (i, st) in steps.iter().enumerate() {
+            let id = E1Scn::op_id(si, i);
+            if st.op.prio() != 0 {
+                continue;
+            }
+            let Some(rs) = d.resolved.get(&id) else { continue };
+            let Some(first) = rs.iter().min_by_key(|r| r.2) else { continue };
+            if task_end_t.map(|g| g <= first.1).unwrap_or(false) {
+                continue; // resolved by (or after) the end of the job
+            }
+            for (j, earlier) in steps.iter().enumerate().take(i) {
+                if !earlier.op.is_marker() {
+                    continue;
+                }
+                let eid = E1Scn::op_id(si, j);
+                let done_seq = match earlier.op {
+                    Op::Run => d.marker_start.get(&eid).and_then(|v| v.first()).map(|m| m.1),
+                    _ => d.marker_end.get(&eid).and_then(|v| v.first()).map(|m| m.1),
+                };
+                stats.hit("probe:ticket-implies-earlier-judged");
+                if done_seq.map(|s| s > first.2).unwrap_or(true) {
+                    vs.push(Violation::new(
+                        "ticket-resolved-before-earlier-control",
+                        "",
+                        format!("sender {si}: ticket of op {id} ({}) resolved at #{} but the earlier-sent op {eid} had not completed (completion: {done_seq:?})", st.op.name(), first.2),
+                    ));
+                }
+            }
+        }
+    }
+    // (3) urgent overtakes: once delete_now is enqueued, no normal-priority control starts
+    for (id, _, _, st) in all_ops(scn) {
+        if st.op != Op::DeleteNow {
+            continue;
+        }
+        let Some(&(qt, q)) = d.send.get(&id) else { continue };
+        if task_end_t.map(|g| g < qt).unwrap_or(false) {
+            continue;
+        }
+        stats.hit("probe:delete-now-sent-to-live-job");
+        for (mid, starts) in &d.marker_start {
+            for m in starts {
+                if m.1 > q {
+                    vs.push(Violation::new(
+                        "normal-ran-after-urgent-enqueued",
+                        "",
+                        format!("delete_now (op {id}) was enqueued at #{q} (t={qt}) but normal-priority marker op {mid} started afterwards at #{} (t={})", m.1, m.0),
+                    ));
+                }
+            }
+        }
+        // ... and the job ends at that very instant unless a control that takes virtual time was in progress
+        let busy = hook_slack(scn) > 0 || all_ops(scn).iter().any(|o| matches!(o.3.op, Op::RunAsync { ms } if ms > 0));
+        if !busy && d.children.iter().all(|c| c.faults == 0) {
+            match d.task_end {
+                Some((g, _, _)) if g == qt => stats.hit("probe:delete-now-immediate"),
+                other => vs.push(Violation::new(
+                    "urgent-not-immediate",
+                    "",
+                    format!("delete_now (op {id}) enqueued at t={qt} with nothing time-consuming in progress, but the job task ended: {other:?}"),
+                )),
+            }
+        }
+    }
+    // (4) high overtakes normal: family-specific
+    if scn.family == "hi-over-normal" {
+        for (id, _, _, st) in all_ops(scn) {
+            if st.op == Op::ToWait {
+                let sent = d.send[&id].0;
+                let rs = d.resolved.get(&id).cloned().unwrap_or_default();
+                stats.hit("probe:high-vs-normal-burst");
+                if rs.iter().any(|r| r.1 != sent) || rs.is_empty() {
+                    vs.push(Violation::new(
+                        "high-did-not-overtake-normal",
+                        "",
+                        format!("burst [start, to_wait] on an idle finished job at t={sent}: to_wait must see the finished state and resolve at once, resolved: {:?}", rs.iter().map(|r| r.1).collect::<Vec<_>>()),
+                    ));
+                }
+            }
+        }
+    }
+    // (5) an armed grace timer holds normal work back
+    vs.extend(oracle_normal_held(scn, d, stats));
+    vs
+}
+
+pub fn gen_hi_over_normal(rng: &mut Rng) -> E1Scn {
+    // first child exits by itself -> job idle in Finished; then an atomic burst [start, to_wait]
+    let d1 = *rng.pick(&[0u64, 1, 5, 50]);
+    let second = if rng.chance(1, 2) { ChildSpec { self_exit: Some(*rng.pick(&[1u64, 5, 50, 100])), ..Default::default() } } else { ChildSpec::default() };
+    let mut steps = vec![Step { gap: 0, op: Op::Start, waiters: 0, inline: false }];
+    let mut burst = vec![Step { gap: 2000, op: Op::Start, waiters: 0, inline: false }];
+    for _ in 0..rng.below(3) {
+        burst.push(Step { gap: 0, op: Op::Run, waiters: 0, inline: false });
+    }
+    burst.push(Step { gap: 0, op: Op::ToWait, waiters: rng.range(1, 2) as u8, inline: false });
+    steps.extend(burst);
+    E1Scn {
+        family: "hi-over-normal".into(),
+        grouped: false,
+        session: false,
+        children: vec![ChildSpec { self_exit: Some(d1), code: rng.below(2) as i32, ..Default::default() }, second],
+        spawn_fail: vec![],
+        senders: vec![steps],
+        drop_handles: false,
+    }
+}
+
+pub fn gen_order(rng: &mut Rng) -> E1Scn {
+    // marker-heavy mixes from 1-3 senders, bursts and trickles, sometimes an armed timer, sometimes delete_now
+    let mut sigs = e1::SigAlloc::new();
+    let n_senders = rng.range(1, 3) as usize;
+    let mut senders: Vec<Vec<Step>> = vec![Vec::new(); n_senders];
+    if rng.chance(2, 3) {
+        senders[0].push(Step { gap: 0, op: Op::Start, waiters: 0, inline: rng.chance(1, 2) });
+    }
+    let n = rng.range(2, 14);
+    let trickle = rng.chance(1, 2);
+    for _ in 0..n {
+        let s = rng.below(n_senders as u64) as usize;
+        let op = match rng.below(20) {
+            0..=8 => Op::Run,
+            9 | 10 => Op::RunAsync { ms: *rng.pick(&[0u64, 1, 5, 10]) },
+            11 => Op::ToWait,
+            12 => Op::DeleteNow,
+            13 => Op::StopSig { sig: sigs.fresh(), grace: *rng.pick(&[0u64, 5, 50, 100]) },
+            14 => Op::TryRestartSig { sig: sigs.fresh(), grace: *rng.pick(&[0u64, 5, 50]) },
+            15 => Op::Start,
+            16 => Op::Stop,
+            17 => Op::Restart,
+            18 => Op::Signal { sig: sigs.fresh() },
+            _ => Op::Delete,
+        };
+        let gap = if trickle { *rng.pick(&[0u64, 0, 1, 2, 5, 10]) } else { 0 };
+        senders[s].push(Step { gap, op, waiters: rng.below(2) as u8, inline: rng.chance(1, 6) });
+    }
+    let children = (0..rng.range(1, 3)).map(|_| e1::child_class(rng.below(6), rng)).collect();
+    E1Scn { family: "order".into(), grouped: false, session: false, children, spawn_fail: vec![], senders, drop_handles: false }
+}
+
+pub struct C10;
+
+impl Check for C10 {
+    type Scn = E1Scn;
+    fn property(&self) -> &'static str {
+        "C10"
+    }
+    fn engine(&self) -> &'static str {
+        "E1-jobsim"
+    }
+    fn budget(&self, tier: Tier) -> u64 {
+        match tier {
+            Tier::Quick => 200_000,
+            Tier::Thorough => 20_000_000,
+        }
+    }
+    fn generate(&self, rng: &mut Rng, idx: u64, _tier: Tier) -> Option<E1Scn> {
+        Some(match idx % 5 {
+            0 => gen_hi_over_normal(rng),
+            1 | 2 => gen_order(rng),
+            3 => gen_graceful_burst(rng, false),
+            _ => e1::gen_random(rng, &GenCfg { faults: false, max_ops: 16, max_senders: 3, allow_drop: false }),
+        })
+    }
+    fn execute(&self, scn: &E1Scn, policy: Policy, sched_seed: u64) -> RunOut {
+        e1::execute(scn, policy, sched_seed)
+    }
+    fn check(&self, scn: &E1Scn, out: &RunOut, stats: &mut Stats) -> Vec<Violation> {
+        let d = digest(out);
+        e1_stats(scn, &d, out, stats);
+        oracle_c10(scn, &d, stats)
+    }
+    fn shrink(&self, scn: &E1Scn) -> Vec<E1Scn> {
+        shrink_e1(scn)
+    }
+    fn nontrivial(&self, scn: &E1Scn, out: &RunOut) -> bool {
+        scn.n_ops() >= 2 && out.hist.iter().filter(|r| matches!(r.ev, Ev::MarkerStart { .. } | Ev::Resolved { .. })).count() >= 2
+    }
+    fn rule(&self) -> String {
+        "scenario as for the other E1 checks (marker-heavy control mixes from 1-3 sender tasks, bursts and trickles, armed timers, delete_now / to_wait); distinct = distinct hash of the full recorded history; non-trivial = at least two controls sent and at least two marker executions / ticket resolutions observed".into()
+    }
+    fn required_probes(&self, _tier: Tier) -> Vec<&'static str> {
+        vec![
+            "probe:fifo-pair-judged",
+            "probe:ticket-implies-earlier-judged",
+            "probe:delete-now-sent-to-live-job",
+            "probe:high-vs-normal-burst",
+            "probe:concurrent-senders",
+            "probe:grace-window-judged",
+        ]
+    }
+    fn components(&self) -> Value {
+        e1_components()
+    }
+    fn assumptions(&self) -> Vec<String> {
+        e1_assumptions()
+    }
 }
